@@ -58,6 +58,7 @@ def run():
     from common import Inconclusive, Obligation
     try:
         C20_e2.add(rep, ctx0)
+        C20_e2.execute_lock_first(rep, ctx0)
         from obligations import C20_run
         C20_run.add(rep, ctx0.lib)
     except Inconclusive as ex:
